@@ -300,7 +300,7 @@ class CoherentFeedForwardLoop:
             ApprovalToken(
                 request_hash=request_hash,
                 issuer=self.assessor.name,
-                reason=str(y_out.payload),
+                reason=_describe(y_out.payload),
                 confidence=y_out.confidence,
                 metadata={"gate_logic": self.gate_logic.value},
             )
@@ -324,7 +324,7 @@ class CoherentFeedForwardLoop:
                     executor_output=z_out,
                     assessor_output=y_out,
                     blocked=True,
-                    block_reason=f"Risk Assessor: {y_out.payload}",
+                    block_reason=f"Risk Assessor: {_describe(y_out.payload)}",
                     gate_logic=self.gate_logic
                 )
             if executor_fails:
@@ -334,7 +334,7 @@ class CoherentFeedForwardLoop:
                     executor_output=z_out,
                     assessor_output=y_out,
                     blocked=True,
-                    block_reason=f"Executor failure: {z_out.payload}",
+                    block_reason=f"Executor failure: {_describe(z_out.payload)}",
                     gate_logic=self.gate_logic
                 )
             if executor_blocks:
@@ -344,7 +344,7 @@ class CoherentFeedForwardLoop:
                     executor_output=z_out,
                     assessor_output=y_out,
                     blocked=True,
-                    block_reason=f"Executor skipped: {z_out.payload}",
+                    block_reason=f"Executor skipped: {_describe(z_out.payload)}",
                     gate_logic=self.gate_logic
                 )
             if executor_permits and assessor_permits:
@@ -390,7 +390,7 @@ class CoherentFeedForwardLoop:
                     executor_output=z_out,
                     assessor_output=y_out,
                     blocked=True,
-                    block_reason=f"Risk Assessor override: {y_out.payload}",
+                    block_reason=f"Risk Assessor override: {_describe(y_out.payload)}",
                     gate_logic=self.gate_logic
                 )
             if executor_permits:
@@ -413,7 +413,7 @@ class CoherentFeedForwardLoop:
                     executor_output=z_out,
                     assessor_output=y_out,
                     blocked=True,
-                    block_reason=f"Executor failure: {z_out.payload}",
+                    block_reason=f"Executor failure: {_describe(z_out.payload)}",
                     gate_logic=self.gate_logic
                 )
             if assessor_permits:
@@ -433,7 +433,7 @@ class CoherentFeedForwardLoop:
                     executor_output=z_out,
                     assessor_output=y_out,
                     blocked=True,
-                    block_reason=f"Risk Assessor: {y_out.payload}",
+                    block_reason=f"Risk Assessor: {_describe(y_out.payload)}",
                     gate_logic=self.gate_logic
                 )
 
@@ -550,7 +550,7 @@ class CoherentFeedForwardLoop:
                 print(f"⚠️ {result.action}: {result.block_reason}")
         else:
             if result.executor_output:
-                print(f"✅ SUCCESS: {result.executor_output.payload}")
+                print(f"✅ SUCCESS: {_describe(result.executor_output.payload)}")
             else:
                 print(f"✅ SUCCESS")
 
